@@ -302,6 +302,7 @@ func c14SortStable(fd *ast.FuncDecl) (stable, found bool, note string) {
 
 func factsC14(r *Repo) []Fact {
 	var out []Fact
+	out = append(out, transC14(r)) // gotrans phase 7: Gen/TransC14.lean (trans_c14.go)
 	ip := r.Pkg("internal")
 	sp := r.Pkg("schema")
 
